@@ -371,3 +371,26 @@ LSP_FIX_PROGRAMS = _json.load(open(os.path.join(os.path.dirname(os.path.abspath(
     'fun rb2(is_friend: Bool, is_morning: Bool): Bool {\n  let s = "\U0001F600"\n  is_friend || is_morning || is_friend\n}\nrb2(True, False)\n',
 ]
 LSP_FIX_BOUND = ("%d programs (the check --fix corpus plus multi-line and multi-byte values in every position a lint builds a fix from): the quick-fix edits the language server offers, applied as LSP defines ranges, must give the text `check --fix --stdout` gives, and every range must lie inside the document" % len(LSP_FIX_PROGRAMS))
+
+
+# Deeply nested or very long-chained source text.  Every recursive pass of the front end (parser, checks, formatter)
+# recurses once per level, so each of these overflows the native stack at some depth; the depths listed here are about
+# twice the depth at which the debug build crashes on the 8 MiB main thread (the JSON session's eval thread has 2 MiB).
+DEEP_SOURCES = {
+    "nested_list_literal_500": "let x = " + "[" * 500 + "]" * 500 + "\n",
+    "nested_parentheses_500": "let x = " + "(" * 500 + "1" + ")" * 500 + "\n",
+    "nested_if_blocks_500": "fun f() { " + "if True { " * 500 + "1" + " }" * 500 + " }\n",
+    "nested_fun_literals_500": "let x = " + "fun() { " * 500 + "1" + " }" * 500 + "\n",
+    "unary_minus_chain_800": "let x = " + "-" * 800 + "1\n",
+    "binary_operator_chain_800": "let x = " + " + ".join("1" for _ in range(800)) + "\n",
+    "method_call_chain_800": "let x = [1]" + ".append(1)" * 800 + "\n",
+    "else_if_chain_3000": "fun f(n: Int): Int {\n  if n == 0 { 0 }" + "".join(" else if n == %d { %d }" % (i, i) for i in range(1, 3000)) + " else { 1 }\n}\n",
+    "nested_type_hint_3000": "let x: " + "List<" * 3000 + "Int" + ">" * 3000 + " = []\n",
+}
+# the same shapes at a depth every pass handles (must stay green)
+MODERATE_SOURCES = [
+    "let x = " + "[" * 40 + "]" * 40 + "\n", "let x = " + "(" * 40 + "1" + ")" * 40 + "\n", "fun f() { " + "if True { " * 40 + "1" + " }" * 40 + " }\n",
+    "let x = " + "fun() { " * 40 + "1" + " }" * 40 + "\n", "let x = " + "-" * 60 + "1\n", "let x = " + " + ".join("1" for _ in range(60)) + "\n",
+    "let x = [1]" + ".append(1)" * 60 + "\n", "fun f(n: Int): Int {\n  if n == 0 { 0 }" + "".join(" else if n == %d { %d }" % (i, i) for i in range(1, 100)) + " else { 1 }\n}\n",
+    "let x: " + "List<" * 100 + "Int" + ">" * 100 + " = []\n",
+]
